@@ -24,7 +24,6 @@ import (
 	nullmetrics "github.com/attestantio/vouch/services/metrics/null"
 	mockproposalpreparer "github.com/attestantio/vouch/services/proposalpreparer/mock"
 	mocksynccommitteeaggregator "github.com/attestantio/vouch/services/synccommitteeaggregator/mock"
-	"github.com/rs/zerolog"
 	e2wtypes "github.com/wealdtech/go-eth2-wallet-types/v2"
 )
 
@@ -117,7 +116,7 @@ func c15Startup(period uint64) {
 	accts := hStartAccounts{late: vnd.Bool("a-validator-activates-next-epoch"), lateFrom: phase0.Epoch(startEpoch + 1)}
 	subs := &hRecSubscriber{}
 	s, err := New(context.Background(),
-		WithLogLevel(zerolog.Disabled),
+		WithLogLevel(vnd.LogLevel()),
 		WithMonitor(nullmetrics.New()),
 		WithSpecProvider(spec),
 		WithChainTimeService(ct),
